@@ -68,6 +68,27 @@ FAMILY = {
     "barbell_excess": ("barbell",
         [["bell_excess", "Ang", 20, [-inf, inf], "volume", "bell radius minus bar radius"]],
         "radius_bell = radius + bell_excess", None, [{}, {"bell_excess": 2}, {"radius": 2}], ("1d",)),
+    # C conditional in the translation of a parameter that the base validity predicate mentions
+    "barbell_conditional": ("barbell",
+        [["bell_scale", "", 1.5, [-inf, inf], "volume", "bell radius over bar radius"]],
+        "radius_bell = bell_scale > 0.0 ? bell_scale*radius : radius", None,
+        [{}, {"bell_scale": 2}], ("1d", "2d")),
+    # comparison-valued intermediate used by a constrained base model
+    "cylinder_conditional": ("cylinder",
+        [["stretch", "", 2, [-inf, inf], "volume", "length over radius, or minus the length"]],
+        "length = stretch >= 0.0 ? stretch*radius : -stretch", None, [{}, {"stretch": 2}], ("1d",)),
+    # new parameters placed after the orientation angles (legal for derived tables)
+    "ellipsoid_after_phi": ("ellipsoid",
+        [["volume", "Ang^3", 1e5, [0, inf], "volume", "ellipsoid volume"],
+         ["eccentricity", "", 1, [0, inf], "volume", "polar:equatorial radius"]],
+        """
+        Re = cbrt(volume/eccentricity/M_4PI_3)
+        radius_polar = eccentricity*Re
+        radius_equatorial = Re
+        """, {"sld_solvent": "volume", "phi": "eccentricity"}, [{}, {"eccentricity": 2}, {"theta": 2}], ("1d", "2d")),
+    "parallelepiped_after_psi": ("parallelepiped",
+        [["b2a", "", 2, [0, inf], "volume", "b:a"]],
+        "length_b = length_a*b2a", {"psi": "b2a"}, [{}, {"b2a": 2}], ("2d",)),
     "vesicle_power": ("vesicle",
         [["area", "Ang^2", 1e4, [0, inf], "volume", "inner surface area / 4 pi"]],
         "radius = sqrt(area)", None, [{}, {"area": 2}], ("1d",)),
@@ -77,7 +98,8 @@ FAMILY = {
 }
 QUICK = ["ellipsoid_vol_ecc", "sphere_diameter", "cylinder_aspect", "cylinder_aspect_first", "cylinder_affine",
          "core_shell_sphere_outer", "hollow_cylinder_outer", "parallelepiped_ratios", "barbell_excess",
-         "capped_cylinder_power"]
+         "capped_cylinder_power", "barbell_conditional", "cylinder_conditional", "ellipsoid_after_phi",
+         "parallelepiped_after_psi"]
 
 _KM = {}
 
@@ -182,8 +204,34 @@ def py_translate(key, x):
         code = line.split("#", 1)[0].split("//", 1)[0].strip()
         if code:
             var, expr = code.split("=", 1)
-            env[var.strip()] = eval(expr, {}, env)
+            env[var.strip()] = eval(_c_to_py(expr), {}, env)
     return env
+
+
+def _c_to_py(expr):
+    """C conditional  c ? a : b  ->  (a) if (c) else (b)  (top level, right associative)."""
+    depth = 0
+    for i, ch in enumerate(expr):
+        if ch == "(":
+            depth += 1
+        elif ch == ")":
+            depth -= 1
+        elif ch == "?" and depth == 0:
+            cond, rest = expr[:i], expr[i + 1:]
+            d2 = 0
+            nest = 0
+            for j, c2 in enumerate(rest):
+                if c2 == "(":
+                    d2 += 1
+                elif c2 == ")":
+                    d2 -= 1
+                elif c2 == "?" and d2 == 0:
+                    nest += 1
+                elif c2 == ":" and d2 == 0:
+                    if nest == 0:
+                        return "((%s) if (%s) else (%s))" % (_c_to_py(rest[:j]), cond, _c_to_py(rest[j + 1:]))
+                    nest -= 1
+    return expr
 
 
 def real_defect(key, dim, mesh_d, q, cutoff):
@@ -228,21 +276,32 @@ def real_defect(key, dim, mesh_d, q, cutoff):
             continue
         ref += w * one / one[nout * nq]
     den = np.maximum(np.abs(ref), np.abs(real))
-    rel = np.where(den > 0, np.abs(ref - real) / np.where(den > 0, den, 1), 0)
+    with np.errstate(all="ignore"):
+        rel = np.where(den > 0, np.abs(ref - real) / np.where(den > 0, den, 1), 0)
+    rel = np.where(np.isnan(real) != np.isnan(ref), np.inf, np.where(np.isnan(rel), 0.0, rel))
     return float(rel.max()), {"derived": real.tolist(), "base_at_translated": ref.tolist()}
 
 
 def _cex(ctx, oracle, extra=""):
     def handler(m):
         km, _t = derived(ctx["key"])
-        mesh = c01._generic_values(km.info, ctx["syms"], m, False)
         cut = float(symx.model_float(m, ctx["cutoff"].t))
         qq = [0.013 * (i + 1) for i in range(len(ctx["q"]))]
-        mesh_d = [[float(v), [float(x) for x in d], [float(x) for x in w]] for v, d, w in mesh]
-        try:
-            defect, detail = real_defect(ctx["key"], ctx["dim"], mesh_d, qq, cut)
-        except Exception as e:
-            defect, detail = float("inf"), {"exception": repr(e)}
+        best = None
+        for use_model in (False, True):      # generic physical values first, then the solver's own
+            mesh = c01._generic_values(km.info, ctx["syms"], m, use_model)
+            mesh_d = [[float(v), [float(x) for x in d], [float(x) for x in w]] for v, d, w in mesh]
+            try:
+                defect, detail = real_defect(ctx["key"], ctx["dim"], mesh_d, qq, cut)
+            except Exception as e:
+                defect, detail = float("inf"), {"exception": repr(e)}
+            if defect != defect:
+                defect = float("inf")
+            if best is None or defect > best[0]:
+                best = (defect, detail, mesh_d)
+            if defect > 1e-9:
+                break
+        defect, detail, mesh_d = best
         return {"reproduced": bool(defect > 1e-9), "key": "C16/%s/%s" % (ctx["key"], oracle.split(":")[0]),
                 "what": "%s %s mesh %s: derived model differs from base model at translated parameters "
                         "(relative defect %.3g) %s" % (ctx["key"], ctx["dim"], ctx["lengths"], defect, extra),
